@@ -116,7 +116,6 @@ func (pq *plotterQueue) Reset() {
 }
 
 func (sk *SpaceKeeper) spacePlotter() {
-	sk.wg.Add(1)
 	defer sk.wg.Done()
 
 	var wg sync.WaitGroup
